@@ -151,17 +151,26 @@ End C09_typed_bodies.
 
 (* ---- clause 5: the multipart boundary ---- *)
 
-Theorem C09_multipart_boundary : forall T S ps b,
+(* the media-type parser behind multer::parse_boundary, on a header in
+   normalised form ("; " before every parameter) *)
+Theorem C09_multipart_boundary_normalised : forall T S ps b,
   str_lower T = S_MULTIPART -> str_lower S = S_FORM_DATA ->
   Forall cparam_ok ps ->
   assoc S_BOUNDARY (map (fun p => (str_lower (cp_name p), cp_value p)) ps) = Some b ->
   parse_boundary (T ++ 47 :: S ++ render_params ps) = BOk b.
 Proof. exact multipart_boundary. Qed.
 
-(* with optional white space before ';' (RFC 9110) it is false: K-MPOWS *)
-Definition C09_multipart_boundary_full_statement : Prop := multipart_boundary_ows_full_statement.
-Theorem C09_K_MPOWS_refuted : ~ C09_multipart_boundary_full_statement.
-Proof. exact multipart_boundary_ows_refuted. Qed.
+(* full strength: any letter case of the media type and of the parameter
+   names; optional blanks (SP / HTAB, RFC 9110 OWS) before and after every ';'
+   and at the end; values as token or quoted-string; the boundary parameter
+   before or after any others *)
+Theorem C09_multipart_boundary : forall T S h0 os b,
+  str_lower T = S_MULTIPART -> str_lower S = S_FORM_DATA ->
+  forallb blank h0 = true -> Forall oparam_ok os ->
+  assoc S_BOUNDARY (map (fun o => (str_lower (cp_name (snd (fst o))), cp_value (snd (fst o)))) os) = Some b ->
+  header_is_str (T ++ 47 :: S ++ h0 ++ render_ows os) = true ->
+  extract_multipart (HVal (T ++ 47 :: S ++ h0 ++ render_ows os)) = Ok b.
+Proof. exact multipart_boundary_extracted. Qed.
 
 (* ---- clause 6: isolation ---- *)
 
@@ -221,10 +230,32 @@ Proof. vm_compute. reflexivity. Qed.
 
 (* multipart/form-data; charset=utf-8; BOUNDARY="X B" *)
 Example C09_ex_boundary :
-  parse_boundary [109;117;108;116;105;112;97;114;116;47;102;111;114;109;45;100;97;116;97;59;32;
+  parse_boundary (normalize_ct [109;117;108;116;105;112;97;114;116;47;102;111;114;109;45;100;97;116;97;59;32;
                   99;104;97;114;115;101;116;61;117;116;102;45;56;59;32;
-                  66;79;85;78;68;65;82;89;61;34;88;32;66;34] = BOk [88; 32; 66].
+                  66;79;85;78;68;65;82;89;61;34;88;32;66;34]) = BOk [88; 32; 66].
 Proof. vm_compute. reflexivity. Qed.
+
+(* multipart/form-data ;<TAB>boundary=XB<SP>   (K9b, repaired) *)
+Example C09_ex_boundary_ows :
+  extract_multipart (HVal [109;117;108;116;105;112;97;114;116;47;102;111;114;109;45;100;97;116;97;32;59;9;
+                           98;111;117;110;100;97;114;121;61;88;66;32]) = Ok [88; 66].
+Proof. vm_compute. reflexivity. Qed.
+
+(* outside the grammar of C09_multipart_boundary, and still refused (by the
+   media-type parser, mime 0.3.16): an empty parameter (two semicolons in a row, RFC 9110 only),
+   and ANOTHER parameter whose quoted-string is empty, contains a quoted-pair,
+   or an HTAB.  None concerns the boundary parameter (RFC 2046 bchars) *)
+Example C09_ex_boundary_residual :
+  (* multipart/form-data;; boundary=XB *)
+  extract_multipart (HVal [109;117;108;116;105;112;97;114;116;47;102;111;114;109;45;100;97;116;97;59;59;32;
+                           98;111;117;110;100;97;114;121;61;88;66]) = Err XMimeParse /\
+  (* multipart/form-data; x=<empty quoted-string>; boundary=XB *)
+  extract_multipart (HVal [109;117;108;116;105;112;97;114;116;47;102;111;114;109;45;100;97;116;97;59;32;
+                           120;61;34;34;59;32;98;111;117;110;100;97;114;121;61;88;66]) = Err XMimeParse /\
+  (* multipart/form-data; x=<quoted-string a backslash dquote b>; boundary=XB *)
+  extract_multipart (HVal [109;117;108;116;105;112;97;114;116;47;102;111;114;109;45;100;97;116;97;59;32;
+                           120;61;34;97;92;34;98;34;59;32;98;111;117;110;100;97;114;121;61;88;66]) = Err XMimeParse.
+Proof. vm_compute. repeat split. Qed.
 
 Print Assumptions C09_scalar_round_trip.
 Print Assumptions C09_parse_scalar_sound.
@@ -249,8 +280,8 @@ Print Assumptions C09_chunking_irrelevant.
 Print Assumptions C09_raw_body_delivered.
 Print Assumptions C09_json_body_delivered.
 Print Assumptions C09_form_body_delivered.
+Print Assumptions C09_multipart_boundary_normalised.
 Print Assumptions C09_multipart_boundary.
-Print Assumptions C09_K_MPOWS_refuted.
 Print Assumptions C09_isolation.
 Print Assumptions C09_handler_sees_own_request.
 Print Assumptions C09_request_info_own.
